@@ -135,13 +135,16 @@ fn sym_text(c: &Case) -> Option<String> {
         // PUBLIC records only, all above the in-function address: that address has no symbol at all, the
         // "module but no function" address (0x8000) belongs to p
         11 => Some("MODULE Linux x 000000000000000000000000000000000 m\nPUBLIC 4000 0 p\nPUBLIC 9000 0 q\n".to_string()),
+        // a rule for the stack pointer itself that cannot be evaluated, next to a CFA below / above the callee's sp
+        12 => cfi(format!(".cfa: {sp} {p} - .ra: {in_func} {sp}: 0 ^")),
+        13 => cfi(format!(".cfa: {sp} {p} + .ra: .cfa {p} - ^ {sp}: 0 ^")),
         8 => Some(format!("{head}STACK WIN 4 1000 100 0 0 0 0 0 0 1 $T0 $ebp = $eip $T0 4 + ^ = $ebp $T0 ^ = $esp $T0 8 + =\n")),
         _ => Some(format!("{head}STACK WIN 0 1000 100 0 0 0 0 4 0 0 0\n")),
     }
 }
 
 fn sym_name(m: u64) -> &'static str {
-    ["none", "FUNC only", "CFI cfa=sp+ptr ra=[cfa-ptr]", "CFI cfa=sp ra=const", "CFI cfa=sp-ptr ra=const", "CFI cfa=[sp] ra=[cfa-ptr]", "CFI cfa=sp+1 ra=const", "CFI cfa=sp+ptr ra=const", "STACK WIN framedata", "STACK WIN fpo", "CFI ping-pong cfa=sp ra=other range", "PUBLIC only (p at 0x4000, q at 0x9000)"][m as usize]
+    ["none", "FUNC only", "CFI cfa=sp+ptr ra=[cfa-ptr]", "CFI cfa=sp ra=const", "CFI cfa=sp-ptr ra=const", "CFI cfa=[sp] ra=[cfa-ptr]", "CFI cfa=sp+1 ra=const", "CFI cfa=sp+ptr ra=const", "STACK WIN framedata", "STACK WIN fpo", "CFI ping-pong cfa=sp ra=other range", "PUBLIC only (p at 0x4000, q at 0x9000)", "CFI cfa=sp-ptr ra=const, sp rule fails", "CFI cfa=sp+ptr ra=[cfa-ptr], sp rule fails"][m as usize]
 }
 
 fn modules_of(c: &Case) -> Vec<(String, u64, u64)> {
@@ -386,9 +389,9 @@ fn main() {
                 def.spaces.push(Space::new(&name, len, move |idx, l| run_case(vi, &b, idx, l), move |idx| describe(vi, &b, idx)).chunked(4096));
             }
         }
-        // both tiers: a symbol file with PUBLIC records only
+        // both tiers: a symbol file with PUBLIC records only; CFI with a stack-pointer rule that cannot be evaluated
         {
-            const PUBLIC_ONLY: &[u64] = &[11];
+            const PUBLIC_ONLY: &[u64] = &[11, 12, 13];
             let pb = Bounds { n: 3, k: 8, nctx: 8, nvalid: 3, nmod: 2, nplace: 2, syms: PUBLIC_ONLY, tagged: false };
             for (vi, (arch, os)) in VARIANTS5.iter().enumerate() {
                 let b = pb;
